@@ -80,6 +80,16 @@ func Main(t *testing.T, h Harness) {
 		return
 	}
 	scs := h.Scenarios(res)
+	if only := os.Getenv("VERIF_ONLY"); only != "" { // development: restrict the run to the scenarios whose name contains the string
+		var keep []Scenario
+		for _, sc := range scs {
+			if strings.Contains(sc.Name, only) {
+				keep = append(keep, sc)
+			}
+		}
+		scs = keep
+		res.Cap("development filter VERIF_ONLY=%s: %d scenarios kept", only, len(keep))
+	}
 	byName := map[string]Scenario{}
 	for _, sc := range scs {
 		byName[sc.Name] = sc
